@@ -119,3 +119,16 @@ Example staleness_is_real :
   map fresh (w_shells w) = [false].
 Proof. exact stale_after_update. Qed.
 Print Assumptions staleness_is_real.
+
+(* A concrete history through the executable predictor (kind 0 call / 1 rejected / 2 accepted, index of the
+   first op with the same outcome, world changed): the hypotheses of the theorems above are satisfiable -
+   accepted and rejected updates, equal outcomes before an update, a different one after it. *)
+Example history_example :
+  let ops := [Call 0 [AObj 0]; Call 9 [AObj 0; AObj 1]; Call 0 [AObj 0];
+              Update 0 FExps (ex_f [3; 4]%Z); AssignNorm 0; Call 0 [AObj 0]; Update 0 FExps (ex_f [3]%Z);
+              Call ESP [AObj 0]; Call 0 [AObj 0]] in
+  map (fun '(k, i, ch) => (k, i, ch)) (fst (fst (predict ex_world ops)))
+  = [(0, 0%nat, false); (0, 1%nat, false); (0, 0%nat, false); (2, 3%nat, true); (2, 4%nat, true);
+     (0, 5%nat, false); (1, 6%nat, false); (0, 7%nat, false); (0, 5%nat, false)]%Z.
+Proof. exact outcomes_follow_values. Qed.
+Print Assumptions history_example.
